@@ -201,6 +201,182 @@ theorem times_comm_numbers (a b : Dec) : builtinInfix ['*'] (.num a) (.num b) = 
 theorem minus_is_plus_neg (a b : Dec) : builtinInfix ['-'] (.num a) (.num b) = builtinInfix ['+'] (.num a) (.num (Dec.neg' b)) := by
   rw [arith ['-'] (by decide), arith ['+'] (by decide), (arith_ops a b).2.1, (arith_ops a (Dec.neg' b)).1, EE.Props.C09.sub_eq_add_neg]
 
+/-! ## `min` / `max`: the result is one of the arguments and no argument is below / above it -/
+theorem bind_ok {α β : Type} {r : Res α} {f : α → Res β} {b : β} (h : r.bind f = .ok b) :
+    ∃ a, r = .ok a ∧ f a = .ok b := by
+  cases r <;> simp [Res.bind] at h
+  exact ⟨_, rfl, h⟩
+
+theorem decimal_ok {v : Value} {d : Dec} (h : v.decimal = .ok d) : v = .num d := by
+  cases v <;> simp [Value.decimal] at h
+  rw [h]
+
+theorem minLoop_spec : ∀ (vs : List Value) (m : Option Dec) (r : Dec), minLoop m vs = .ok (some r) →
+    (∀ x, m = some x → Dec.lt x r = false) ∧ (∀ d, Value.num d ∈ vs → Dec.lt d r = false) ∧
+    (m = some r ∨ Value.num r ∈ vs)
+  | [], m, r, h => by
+    simp only [minLoop, Res.ok.injEq] at h
+    subst h
+    exact ⟨fun x hx => (by cases hx; exact EE.Props.C09.lt_irrefl _), fun d hd => (by cases hd), .inl rfl⟩
+  | v :: vs, m, r, h => by
+    unfold minLoop at h
+    obtain ⟨d, hd, h2⟩ := bind_ok h
+    clear h
+    have hv := decimal_ok hd
+    subst hv
+    clear hd
+    have h := h2
+    clear h2
+    cases m with
+    | none =>
+      dsimp only at h
+      obtain ⟨i1, i2, i3⟩ := minLoop_spec vs (some d) r h
+      refine ⟨fun x hx => (by cases hx), ?_, ?_⟩
+      · intro e he
+        rcases List.mem_cons.mp he with he | he
+        · cases he; exact i1 d rfl
+        · exact i2 e he
+      · rcases i3 with i3 | i3
+        · cases i3; exact .inr (List.mem_cons_self)
+        · exact .inr (List.mem_cons_of_mem _ i3)
+    | some x =>
+      dsimp only at h
+      by_cases hlt : Dec.lt d x = true
+      · rw [if_pos hlt] at h
+        obtain ⟨i1, i2, i3⟩ := minLoop_spec vs (some d) r h
+        have hdr := i1 d rfl
+        refine ⟨?_, ?_, ?_⟩
+        · intro y hy
+          cases hy
+          cases hxr : Dec.lt x r with
+          | false => rfl
+          | true => have := EE.Props.C09.lt_trans d x r hlt hxr; rw [hdr] at this; cases this
+        · intro e he
+          rcases List.mem_cons.mp he with he | he
+          · cases he; exact hdr
+          · exact i2 e he
+        · rcases i3 with i3 | i3
+          · cases i3; exact .inr (List.mem_cons_self)
+          · exact .inr (List.mem_cons_of_mem _ i3)
+      · rw [if_neg hlt] at h
+        obtain ⟨i1, i2, i3⟩ := minLoop_spec vs (some x) r h
+        have hxr := i1 x rfl
+        refine ⟨fun y hy => (by cases hy; exact hxr), ?_, ?_⟩
+        · intro e he
+          rcases List.mem_cons.mp he with he | he
+          · cases he
+            cases hdr : Dec.lt d r with
+            | false => rfl
+            | true =>
+              rcases EE.Props.C09.lt_cotrans d x r hdr with h' | h'
+              · exact absurd h' hlt
+              · rw [hxr] at h'; cases h'
+          · exact i2 e he
+        · rcases i3 with i3 | i3
+          · exact .inl i3
+          · exact .inr (List.mem_cons_of_mem _ i3)
+
+/-- **`min(args)`**: when it returns a value, that value is one of the arguments and no argument is smaller. -/
+theorem min_spec (args : List Value) (v : Value) (h : builtinFn ['m', 'i', 'n'] args = .ok v) :
+    ∃ r, v = .num r ∧ Value.num r ∈ args ∧ ∀ d, Value.num d ∈ args → Dec.lt d r = false := by
+  have hc : fnClass ['m', 'i', 'n'] = .min := by decide
+  unfold builtinFn at h
+  rw [hc] at h
+  dsimp only at h
+  obtain ⟨m, hm, h⟩ := bind_ok h
+  cases m with
+  | none => cases h
+  | some r =>
+    simp only [Res.ok.injEq] at h
+    obtain ⟨_, i2, i3⟩ := minLoop_spec args none r hm
+    refine ⟨r, h.symm, ?_, i2⟩
+    rcases i3 with i3 | i3
+    · cases i3
+    · exact i3
+
+theorem maxLoop_spec : ∀ (vs : List Value) (m : Option Dec) (r : Dec), maxLoop m vs = .ok (some r) →
+    (∀ x, m = some x → Dec.lt r x = false) ∧ (∀ d, Value.num d ∈ vs → Dec.lt r d = false) ∧
+    (m = some r ∨ Value.num r ∈ vs)
+  | [], m, r, h => by
+    simp only [maxLoop, Res.ok.injEq] at h
+    subst h
+    exact ⟨fun x hx => (by cases hx; exact EE.Props.C09.lt_irrefl _), fun d hd => (by cases hd), .inl rfl⟩
+  | v :: vs, m, r, h => by
+    unfold maxLoop at h
+    obtain ⟨d, hd, h2⟩ := bind_ok h
+    clear h
+    have hv := decimal_ok hd
+    subst hv
+    clear hd
+    have h := h2
+    clear h2
+    cases m with
+    | none =>
+      dsimp only at h
+      obtain ⟨i1, i2, i3⟩ := maxLoop_spec vs (some d) r h
+      refine ⟨fun x hx => (by cases hx), ?_, ?_⟩
+      · intro e he
+        rcases List.mem_cons.mp he with he | he
+        · cases he; exact i1 d rfl
+        · exact i2 e he
+      · rcases i3 with i3 | i3
+        · cases i3; exact .inr (List.mem_cons_self)
+        · exact .inr (List.mem_cons_of_mem _ i3)
+    | some x =>
+      dsimp only at h
+      by_cases hlt : Dec.lt x d = true
+      · rw [if_pos hlt] at h
+        obtain ⟨i1, i2, i3⟩ := maxLoop_spec vs (some d) r h
+        have hdr := i1 d rfl
+        refine ⟨?_, ?_, ?_⟩
+        · intro y hy
+          cases hy
+          cases hxr : Dec.lt r x with
+          | false => rfl
+          | true => have := EE.Props.C09.lt_trans r x d hxr hlt; rw [hdr] at this; cases this
+        · intro e he
+          rcases List.mem_cons.mp he with he | he
+          · cases he; exact hdr
+          · exact i2 e he
+        · rcases i3 with i3 | i3
+          · cases i3; exact .inr (List.mem_cons_self)
+          · exact .inr (List.mem_cons_of_mem _ i3)
+      · rw [if_neg hlt] at h
+        obtain ⟨i1, i2, i3⟩ := maxLoop_spec vs (some x) r h
+        have hxr := i1 x rfl
+        refine ⟨fun y hy => (by cases hy; exact hxr), ?_, ?_⟩
+        · intro e he
+          rcases List.mem_cons.mp he with he | he
+          · cases he
+            cases hdr : Dec.lt r d with
+            | false => rfl
+            | true =>
+              rcases EE.Props.C09.lt_cotrans r x d hdr with h' | h'
+              · rw [hxr] at h'; cases h'
+              · exact absurd h' hlt
+          · exact i2 e he
+        · rcases i3 with i3 | i3
+          · exact .inl i3
+          · exact .inr (List.mem_cons_of_mem _ i3)
+
+/-- **`max(args)`**: when it returns a value, that value is one of the arguments and no argument is larger. -/
+theorem max_spec (args : List Value) (v : Value) (h : builtinFn ['m', 'a', 'x'] args = .ok v) :
+    ∃ r, v = .num r ∧ Value.num r ∈ args ∧ ∀ d, Value.num d ∈ args → Dec.lt r d = false := by
+  have hc : fnClass ['m', 'a', 'x'] = .max := by decide
+  unfold builtinFn at h
+  rw [hc] at h
+  dsimp only at h
+  obtain ⟨m, hm, h⟩ := bind_ok h
+  cases m with
+  | none => cases h
+  | some r =>
+    simp only [Res.ok.injEq] at h
+    obtain ⟨_, i2, i3⟩ := maxLoop_spec args none r hm
+    refine ⟨r, h.symm, ?_, i2⟩
+    rcases i3 with i3 | i3
+    · cases i3
+    · exact i3
+
 /-! ## Wrong operand type: an error, never a coerced value -/
 theorem illtyped_arith (op : Name) (h : op ∈ decNames) (v w : Value) (hv : (∀ d, v ≠ .num d) ∨ (∀ d, w ≠ .num d)) :
     (builtinInfix op v w).isErr = true := by
